@@ -229,7 +229,29 @@ attribute [local instance] exactArith
 `y` : any feasible point of the standard form `s` of `lm` (C13 `StdFeasible`: one value per column, all `≥ 0`, every
 equality holds), `value` : whatever is reported as objective.  Then the by-name assignment names every variable of
 `lm` exactly once, `value_of` returns for the `i`-th variable the `i`-th component of `preimage lm y`, that point
-satisfies every row and every declared bound of `lm`, and its objective is the one the standard form records. -/
+satisfies every row and every declared bound of `lm`, and its objective is the one the standard form records.
+SHARP FORM of the name hypothesis: only the variables that stay ONE column (`keep (flags lm) lm.vars`: the non-free,
+`NonNegativeReal` ones) need a `plainName`; a free variable `v` occurs only as `$p‹v›` / `$m‹v›` and may be called anything
+(even `$sl_x`).  The counterexample `asLpAssignment_prefix_collision_counterexample` is exactly a kept variable. -/
+theorem asLpSolution_feasible_kept_partial {lm : LinModel (Ext K)} (hW : WF lm) (hnd : lm.vars.Nodup)
+    (hpl : (StdLayout.keep (StdSpec.flags lm) lm.vars).all plainName = true)
+    {s : StdModel (Ext K)} (hs : Standardize.standardize lm = .ok s)
+    (y : List K) (hF : StdFeasible s y) (value : Ext K) :
+    ((asLpSolution s.vars (y.map Ext.fin) value).assignment.map (·.1)).Perm lm.vars ∧
+    (∀ i (hi : i < lm.vars.length),
+      (asLpSolution s.vars (y.map Ext.fin) value).valueOf (lm.vars[i]) =
+        some (Val.real (Ext.fin ((preimage lm y).getD i 0)))) ∧
+    LinFeasible lm (preimage lm y) ∧ stdObj s y = obj lm (preimage lm y) := by
+  have hpl' : ∀ v ∈ StdLayout.keep (StdSpec.flags lm) lm.vars, ComposeNames.plain v = true :=
+    fun v hv => (List.all_eq_true.mp hpl) v hv
+  obtain ⟨hperm, hval⟩ := ComposeNames.asLp_standardize_kept lm hW hnd hpl' hs y hF.len
+  refine ⟨hperm, fun i hi => ?_, Rooc.StdMain.bwd lm hW hs y hF⟩
+  rw [valueOf_first_duplicate_wins]
+  show (List.find? _ (asLpAssignment s.vars (y.map Ext.fin))).map _ = _
+  rw [hval i hi]
+  rfl
+
+/-- the same under the simpler hypothesis that EVERY variable of `lm` has a plain name. -/
 theorem asLpSolution_feasible_partial {lm : LinModel (Ext K)} (hW : WF lm) (hnd : lm.vars.Nodup)
     (hpl : lm.vars.all plainName = true) {s : StdModel (Ext K)} (hs : Standardize.standardize lm = .ok s)
     (y : List K) (hF : StdFeasible s y) (value : Ext K) :
@@ -237,14 +259,10 @@ theorem asLpSolution_feasible_partial {lm : LinModel (Ext K)} (hW : WF lm) (hnd 
     (∀ i (hi : i < lm.vars.length),
       (asLpSolution s.vars (y.map Ext.fin) value).valueOf (lm.vars[i]) =
         some (Val.real (Ext.fin ((preimage lm y).getD i 0)))) ∧
-    LinFeasible lm (preimage lm y) ∧ stdObj s y = obj lm (preimage lm y) := by
-  have hpl' : ∀ v ∈ lm.vars, ComposeNames.plain v = true := fun v hv => (List.all_eq_true.mp hpl) v hv
-  obtain ⟨hperm, hval⟩ := ComposeNames.asLp_standardize lm hW hnd hpl' hs y hF.len
-  refine ⟨hperm, fun i hi => ?_, Rooc.StdMain.bwd lm hW hs y hF⟩
-  rw [valueOf_first_duplicate_wins]
-  show (List.find? _ (asLpAssignment s.vars (y.map Ext.fin))).map _ = _
-  rw [hval i hi]
-  rfl
+    LinFeasible lm (preimage lm y) ∧ stdObj s y = obj lm (preimage lm y) :=
+  asLpSolution_feasible_kept_partial hW hnd
+    (List.all_eq_true.mpr fun v hv =>
+      (List.all_eq_true.mp hpl) v ((ComposeNames.keep_sublist _ _).subset hv)) hs y hF value
 
 /-- **the `LpSolution` of `solve_real_lp_problem_slow_simplex`, end to end at exact arithmetic** (C13 ∘ C14 ∘
 `as_lp_solution`): when the loop stops `Finished` on a canonical feasible tableau of the standard form of a well-formed
@@ -283,6 +301,15 @@ example : (asLpSolution exFreeStd.vars ([0, 3, 0].map Ext.fin) (Ext.fin (-3))).v
     [0, 3, 0] exFree_point (Ext.fin (-3))
   rw [exFree_preimage] at hval hfeas
   exact ⟨by simpa [exFree] using hval 0 (by simp [exFree]), hfeas⟩
+
+/-- the SHARP name hypothesis at work: the free variable is CALLED `$sl_y` (an internal prefix).  No kept variable
+exists, so `asLpSolution_feasible_kept_partial` applies, and `as_lp_solution` hands back `$sl_y = −3`. -/
+example : (asLpSolution exFreeSlStd.vars ([0, 3, 0].map Ext.fin) (Ext.fin (-3))).valueOf "$sl_y" =
+    some (Val.real (Ext.fin (-3 : ℚ))) := by
+  obtain ⟨_, hval, _, _⟩ := asLpSolution_feasible_kept_partial exFreeSl_wf (by simp [exFreeSl])
+    (by rw [exFreeSl_flags]; simp [exFreeSl, StdLayout.keep]) exFreeSl_std [0, 3, 0] exFreeSl_point (Ext.fin (-3))
+  rw [exFreeSl_preimage] at hval
+  simpa [exFreeSl] using hval 0 (by simp [exFreeSl])
 
 /-- `slow_simplex_solution_exact_partial` applies to `min −x s.t. x ≤ 2, x ≥ 0` (tableau `exT`, one pivot): the
 hypotheses are jointly satisfiable. -/
